@@ -218,7 +218,132 @@ def rule_n3(F, regs):
     return r
 
 
+N5_NEUTRAL = ("checked_sub", "checked_add", "checked_mul", "wrapping_sub", "wrapping_add", "saturating_sub", "saturating_add",
+              "branch", "from_residual", "into", "from", "clone", "min", "max", "cmp", "partial_cmp", "eq", "ne", "lt", "le", "gt", "ge",
+              "from_output", "into_iter", "new")
+
+
+def rule_n5(F):
+    """Out-of-range positions give None: in the hand-written index arithmetic of the string views, no `Some(..)` is
+    produced unless the start index has been looked up in the string on the way there."""
+    from .c08 import deps
+    r = RuleResult("C17.N5", "string views: every Some(..) result is preceded, on every path, by a successful lookup of the start index in the string (and of every index the value is computed from)", floor=4)
+    nfn = 0
+    for p in sorted(F.paths()):
+        if not re.match(r"^value::string::String(Bytes|Chars|Lines)::\w+$", p):
+            continue
+        b = F.body(p)
+        if b is None or not b.mir:
+            continue
+        ls = b.mir["locals"]
+        argc = b.mir["argc"]
+        idx_params = [i for i in range(2, argc + 1) if ls[i]["ty"] == "usize"]
+        if not ls[0]["ty"].startswith("std::option::Option<") or not idx_params:
+            continue
+        nfn += 1
+        defs = mir.Defs(b)
+        dom = mir.dominators(b)
+        gs = mir.gates(b, defs)
+        loops = mir.natural_loops(b)
+
+        def D(op):
+            if not mir.is_place_op(op):
+                return set()
+            l = op[1][0]
+            if 1 <= l <= argc:
+                return {"arg%d" % l}
+            return {x.split(".")[0] for x in deps(b, defs, l)}
+
+        def call_deps(t):
+            out = set()
+            for a in t["args"]:
+                out |= D(a)
+            return out
+
+        def lookup_gates(need):
+            """Gates on the result of a call that consumed string data and every parameter in `need`."""
+            out = []
+            for g in gs:
+                for c in g["chain"]:
+                    t = b.blocks[c[0]]["term"]
+                    if t["k"] != "call" or hir.last(mir.callee_def(t)) in N5_NEUTRAL:
+                        continue
+                    cd = call_deps(t)
+                    if "arg1" in cd and need & cd:
+                        out.append((g, c[0], cd))
+            return out
+
+        def validators(q):
+            need = {"arg%d" % q}
+            v = []
+            why = []
+            for g, cb, cd in lookup_gates(need):
+                v += g["good"]
+                why.append("lookup %s line %d" % (hir.last(mir.callee_def(b.blocks[cb]["term"])), b.blocks[cb]["term"]["line"]))
+            # a loop running once per unit up to the index, each iteration looking one unit up (and leaving with None when there is none)
+            for h, nodes in loops:
+                driver = any(b.blocks[n]["term"]["k"] == "call" and hir.last(mir.callee_def(b.blocks[n]["term"])) == "next"
+                             and need & call_deps(b.blocks[n]["term"]) and "arg1" not in call_deps(b.blocks[n]["term"]) for n in nodes)
+                if not driver:
+                    continue
+                step = False
+                for g in gs:
+                    if g["bb"] not in nodes or not any(x not in nodes for x in g["bad"]):
+                        continue
+                    for c in g["chain"]:
+                        t = b.blocks[c[0]]["term"]
+                        if c[0] in nodes and t["k"] == "call" and hir.last(mir.callee_def(t)) not in N5_NEUTRAL and "arg1" in call_deps(t):
+                            step = True
+                if step:
+                    v.append(h)
+                    why.append("per-unit loop at line %d" % b.blocks[h]["term"].get("line", 0))
+            # an explicit comparison of the index with something computed from the string
+            for bi, blk in enumerate(b.blocks):
+                t = blk["term"]
+                if t["k"] == "switch" and mir.is_place_op(t["o"]):
+                    cd = D(t["o"])
+                    if "arg1" in cd and need & cd and not any(g["bb"] == bi for g in gs):
+                        v += [x for _, x in t["targets"]] + [t["otherwise"]]
+                        why.append("comparison line %d" % t.get("line", 0))
+            return v, why
+        val = {q: validators(q) for q in idx_params}
+        n = 0
+        # locals whose value becomes the return value
+        toret = {0}
+        ch = True
+        while ch:
+            ch = False
+            for blk in b.blocks:
+                for st in blk["stmts"]:
+                    if st["k"] == "assign" and st["p"][0] in toret and len(st["p"]) == 1 and st["rv"]["k"] == "use" and mir.is_place_op(st["rv"]["o"]) \
+                            and len(st["rv"]["o"][1]) == 1 and st["rv"]["o"][1][0] not in toret:
+                        toret.add(st["rv"]["o"][1][0])
+                        ch = True
+        for bi, st in mir.agg_sites(b, "std::option::Option"):
+            if st["rv"].get("variant") != "Some" or b.blocks[bi].get("cleanup") or st["p"][0] not in toret or len(st["p"]) != 1:
+                continue
+            n += 1
+            payload = set()
+            for o in st["rv"]["ops"]:
+                payload |= D(o)
+            need = [idx_params[0]] + [q for q in idx_params[1:] if "arg%d" % q in payload]
+            okq = {}
+            for q in need:
+                okq[ls[q].get("name") or "arg%d" % q] = any(v == bi or v in dom[bi] for v in val[q][0])
+            key = "%s Some #%d" % (p.split("value::string::")[1], n)
+            r.inst(key, {"fn": p, "line": st["line"], "value_depends_on": sorted(payload), "validated": okq,
+                         "validators": {(ls[q].get("name") or str(q)): val[q][1] for q in need}})
+            for q in need:
+                nm = ls[q].get("name") or "arg%d" % q
+                if not okq[nm]:
+                    r.bad(p, "Some #%d without lookup of parameter %d" % (n, q - 1), relfile(b.file), st["line"],
+                          "this Some(..) can be reached without a successful lookup of index `%s` in the string: an out-of-range `%s` yields Some instead of the documented None" % (nm, nm))
+    if nfn < 2:
+        r.missing("index-taking Option-returning methods of the string views (found %d)" % nfn)
+    return r
+
+
 def rules(ctx):
     F = ctx["F"]
     regs = registrations(F)
-    return [rule_n1(F, regs), rule_n2(F), rule_n3(F, regs), rule_n4(F, regs)]
+    return [rule_n1(F, regs), rule_n2(F), rule_n3(F, regs), rule_n4(F, regs), rule_n5(F)]
